@@ -545,6 +545,30 @@ impl<H: MsgHeader> Endpoint<H> {
         Ok((hdr, bytes - mem::size_of::<H>(), files))
     }
 
+    /// Receive up to `len` payload bytes that follow an already received header and body.
+    /// Loops until `len` bytes have been read or the peer closes the connection; the returned
+    /// buffer is truncated to the number of bytes actually received. Attached file descriptors,
+    /// if any, are closed.
+    ///
+    /// # Return:
+    /// * - the received bytes on success.
+    /// * - SocketBroken: the underline socket is broken.
+    /// * - SocketError: other socket related errors.
+    pub fn recv_payload(&mut self, len: usize) -> Result<Vec<u8>> {
+        let mut buf = vec![0u8; len];
+        if len == 0 {
+            return Ok(buf);
+        }
+        let mut iovs = [iovec {
+            iov_base: buf.as_mut_ptr() as *mut c_void,
+            iov_len: len,
+        }];
+        // SAFETY: Safe because we own buf and it's safe to fill a byte array with arbitrary data.
+        let (bytes, _files) = unsafe { self.recv_into_iovec_all(&mut iovs[..])? };
+        buf.truncate(bytes);
+        Ok(buf)
+    }
+
     /// Receive a message with optional payload and attached file descriptors.
     /// Note, only the first MAX_ATTACHED_FD_ENTRIES file descriptors will be
     /// accepted and all other file descriptor will be discard silently.
